@@ -342,9 +342,9 @@ class G:
             base = k * CH
             self.emit("remr %s %d %d" % (x, base, base + CH))
             a = r.randrange(0, 60000)
-            self.emit("addr %s %d %d" % (x, base + a, base + a + r.choice([100, 1000])))
+            self.emit("addr %s %d %d" % (x, base + a, base + a + r.choice([20, 100])))
             other = [((k + 1) % 65536) * CH + r.randrange(CH)] if r.random() < 0.5 and k < 65535 else []
-            vals = other + [base + v for v in sorted(r.sample(range(CH), r.choice([200, 400, 700])))]
+            vals = other + [base + v for v in sorted(r.sample(range(CH), r.choice([300, 400, 700])))]
             self.emit("addmany %s %s" % (x, " ".join(map(str, vals))))
         elif op == "trimruns":
             # a run chunk (>= 3 runs) whose runs are trimmed one value at a time from their ends, never re-optimised:
@@ -624,6 +624,13 @@ class G:
             spare = " spare" if cmd.startswith("fromdense") and ws and r.random() < 0.5 else ""
             self.emit("%s %s%s" % (cmd, ".".join(ws) if ws else "", spare))
             self.emit("wf %s" % y)
+            if r.random() < 0.5:
+                # RunOptimize is content-neutral; a chunk that stays a bitmap container still borrows the caller's words
+                self.emit("opt %s" % y)
+                for _ in range(2):
+                    self.emit("%s %s %d" % (r.choice(["add", "rem", "cadd", "crem"]), y, r.randrange(0, max(1, n * 64))))
+                self.emit("densechk")
+                self.count("dense:opt-then-edit")
             # mutate the bitmap in chunks that may share the caller's words, then check the words are untouched
             for _ in range(4):
                 self.hist_step(y, set(range(0, max(1, (n * 64) // CH + 1))))
